@@ -43,8 +43,19 @@ func declName(d string) string {
 func (vc *VC) buildQuery(o *Obligation) string {
 	need := map[string]bool{}
 	tokenizeSyms(o.Goal, need)
+	// frame facts (∀r. outside the frame, H'[r] = H[r]) are kept only when the heap version they define is mentioned by
+	// the goal, another kept fact, or a kept definition; dropping an assumption is always sound
+	var pending []string
 	for _, p := range o.PC {
+		if _, isFrame := vc.frameFacts[p]; isFrame {
+			pending = append(pending, p)
+			continue
+		}
 		tokenizeSyms(p, need)
+	}
+	droppedFrame := map[string]bool{}
+	for _, p := range pending {
+		droppedFrame[p] = true
 	}
 	// axioms are included only when they talk about a declared symbol the query already mentions (relevance closure);
 	// an axiom over symbols that occur nowhere else cannot contribute to a refutation
@@ -78,6 +89,19 @@ func (vc *VC) buildQuery(o *Obligation) string {
 				seenDef[name] = true
 				tokenizeSyms(d, need)
 				changed = true
+			}
+		}
+		for _, p := range pending {
+			if !droppedFrame[p] {
+				continue
+			}
+			for _, hs := range vc.frameFacts[p] {
+				if need[hs] {
+					droppedFrame[p] = false
+					tokenizeSyms(p, need)
+					changed = true
+					break
+				}
 			}
 		}
 		for _, x := range axs {
@@ -137,6 +161,9 @@ func (vc *VC) buildQuery(o *Obligation) string {
 		b.WriteString("\n")
 	}
 	for _, p := range o.PC {
+		if droppedFrame[p] {
+			continue
+		}
 		b.WriteString("(assert " + p + ")\n")
 	}
 	b.WriteString("(assert (not " + o.Goal + "))\n")
